@@ -11,7 +11,7 @@ Decided:
   ALIAS-GOAL           Unifier::relate_alias_ty pushes an AliasEq goal on every path
 """
 from core import enum_matches, select_arms, V, T, walk, calls, peel, callee_matches, var_name, expr_vars, trace_is_call
-from kit import need_body, has_call, short, result_expr, mentions_field, thir_all, reachable_nodes, ctor_names
+from kit import need_body, has_call, short, result_expr, mentions_field, thir_all, reachable_nodes, ctor_names, for_loops, loop_total
 
 PC = "chalk_solve::clauses::program_clauses::ToProgramClauses"
 
@@ -57,6 +57,27 @@ def run(ck, facts, tier):
             ck.ok(R, "impls_of:negative-impls-skipped;value-of-each-applicable-impl")
         else:
             ck.violation(R, "impls_of:negative-impls-skipped;value-of-each-applicable-impl", b.where(), "normalization clauses must come from every positive impl's associated type value")
+
+    R = "C07.EVERY-IMPL"
+    ck.rule(R, "K9 loop-total: the loop over db.impls_for_trait(..) in push_program_clauses_for_associated_type_values_in_impls_of emits the "
+               "associated type value's clauses in *every* iteration - skipping only negative impls and impls without a value for this "
+               "associated type - and is left only when the candidates are exhausted (no break / return: the candidate list is a syntactic "
+               "pre-filter, a later candidate may be the impl that applies)")
+    if b:
+        th = facts.thir(pk)
+        ls = [x for x in for_loops(th) if has_call(x[1], "impls_for_trait")]
+        ck.floor(R, "for impl_id in impls_for_trait(..)", len(ls), 1)
+
+        def excused(n):
+            c = peel(n["cond"])
+            if c.get("k") == "un" and c.get("op") == "Not" and has_call(c, "is_positive"):
+                return "then"
+            if c.get("k") == "letexpr" and has_call(c, "associated_ty_from_impl") and c["pat"].get("v") == "Some":
+                return "else"
+            return None
+        for l, it, pat, body in ls:
+            loop_total(ck, R, "impls_of:for-each-candidate-impl", b.where(l.get("ln")), body,
+                       lambda n: n.get("k") == "call" and callee_matches(n, "to_program_clauses"), excused, what="a candidate impl")
 
     R = "C07.PLACEHOLDER-LOW"
     ck.rule(R, "K1: AssociatedTyDatum::to_program_clauses pushes exactly one clause with ClausePriority::Low - the fact AliasEq(projection = "
